@@ -161,7 +161,20 @@ pub fn world_main(sc: Scenario, trace: bool, finish: Finish) {
     }
 }
 
+/// absolute scratch base, remembered before the owner removes the working directory
+static OWNER_BASE: std::sync::OnceLock<std::path::PathBuf> = std::sync::OnceLock::new();
+
 fn node_world(finish: Finish) {
+    if let Ok(d) = std::env::current_dir() {
+        let depth = world().sc.tree.root.split('/').filter(|x| !x.is_empty()).count();
+        let mut b = Some(d);
+        for _ in 0..depth {
+            b = b.and_then(|x| x.parent().map(|p| p.to_path_buf()));
+        }
+        if let Some(b) = b {
+            let _ = OWNER_BASE.set(b);
+        }
+    }
     let w = world();
     let sc = &w.sc;
     let pool = ThreadPool::new(sc.workers);
@@ -192,6 +205,39 @@ fn node_world(finish: Finish) {
     phases.sort();
     phases.dedup();
     for ph in phases {
+        // the owner's own changes to the tree (not the server's: the mutation monitor looks away)
+        for op in sc.owner_ops.iter().filter(|o| o.before_phase == ph) {
+            let armed = crate::fsmon::is_armed();
+            crate::fsmon::arm(false);
+            crate::fsmon::io_yields(false);
+            if let Some(base) = OWNER_BASE.get().cloned() {
+                let p = base.join(&op.path);
+                match op.kind.as_str() {
+                    "remove_tree" => {
+                        let _ = std::fs::remove_dir_all(&p);
+                    }
+                    "remove_file" => {
+                        let _ = std::fs::remove_file(&p);
+                    }
+                    "truncate" => {
+                        let _ = std::fs::OpenOptions::new().write(true).open(&p).and_then(|f| f.set_len(0));
+                    }
+                    "replace_with_empty_dir" => {
+                        let _ = std::fs::remove_dir_all(&p);
+                        let _ = std::fs::create_dir_all(&p);
+                    }
+                    _ => {}
+                }
+                w.with(|st| {
+                    st.log("owner_op", usize::MAX, crate::util::hash_str(&op.kind));
+                    st.reach("owner_changed_the_tree_between_phases");
+                });
+            }
+            if w.sc.yields.iter().any(|y| y == "file_io") {
+                crate::fsmon::io_yields(true);
+            }
+            crate::fsmon::arm(armed);
+        }
         let ids: Vec<usize> = sc.conns.iter().filter(|c| c.phase == ph).map(|c| c.id).collect();
         for &id in &ids {
             let c = sc.conns[id].clone();
